@@ -41,11 +41,21 @@ pub fn run(ctx: &mut Ctx) {
         let mut r = ctx.rng_global(7, s);
         let nconn = 2 + r.usize(7);
         let base_id = s * 16;
+        // half of the scenarios put all connections between a small set of hosts (same client
+        // address with different ports, same server address/port), the other half use unrelated hosts
+        let shared_hosts = s % 2 == 1;
         let conns: Vec<Conn> = (0..nconn)
             .map(|i| {
                 let kind = *r.pick(&KINDS);
                 let base = scenario::T0 + r.below(2000);
-                scenario::gen_conn(&mut r, base_id + i as u64, kind, base)
+                let ep = if shared_hosts {
+                    let c = [10, 77, (s % 250) as u8, 1 + r.below(2) as u8];
+                    let sv = [172, 20, (s % 250) as u8, 1 + r.below(2) as u8];
+                    Some(crate::pkt::Endpoints::v4(c, 2000 + (i as u16) * 37 + (r.below(30) as u16), sv, *r.pick(&[80u16, 443])))
+                } else {
+                    None
+                };
+                scenario::gen_conn_ep(&mut r, base_id + i as u64, kind, base, ep)
             })
             .collect();
         let with_db = s % 2 == 0;
